@@ -189,12 +189,16 @@ static void s_sba_clean_up(struct small_block_allocator *sba) {
             aws_array_list_get_at(&bin->active_pages, &page_addr, page_idx);
             struct page_header *page = page_addr;
             AWS_ASSERT(page->alloc_count == 0 && "Memory still allocated in aws_sba_allocator (bin)");
+            /* ensure that the page tag is erased, in case nearby memory is re-used */
+            page->tag = page->tag2 = 0;
             s_aligned_free(page);
         }
         if (bin->page_cursor) {
             void *page_addr = s_page_base(bin->page_cursor);
             struct page_header *page = page_addr;
             AWS_ASSERT(page->alloc_count == 0 && "Memory still allocated in aws_sba_allocator (page)");
+            /* ensure that the page tag is erased, in case nearby memory is re-used */
+            page->tag = page->tag2 = 0;
             s_aligned_free(page);
         }
 
